@@ -558,6 +558,53 @@ func valueOutcome(expr string, data any) (out string) {
 	return "ok " + sb.String()
 }
 
+// approxSame: two value-canonical outcomes that differ only in numbers, each pair within 1e-15 relative error.
+// Such a difference is rounding of an intermediate result that is not exactly representable in one of the
+// representations (0.5/3 as binary64 and as decimal) — outside the precondition of the property.
+func approxSame(a, b string) bool {
+	split := func(s string) (skel string, nums []*big.Rat) {
+		var sb strings.Builder
+		for {
+			i := strings.Index(s, "num:")
+			if i < 0 {
+				sb.WriteString(s)
+				break
+			}
+			sb.WriteString(s[:i])
+			sb.WriteString("num:#")
+			j := i + 4
+			for j < len(s) && (s[j] == '-' || s[j] == '/' || (s[j] >= '0' && s[j] <= '9')) {
+				j++
+			}
+			r, ok := new(big.Rat).SetString(s[i+4 : j])
+			if !ok {
+				r = new(big.Rat)
+			}
+			nums = append(nums, r)
+			s = s[j:]
+		}
+		return sb.String(), nums
+	}
+	sa, na := split(a)
+	sb2, nb := split(b)
+	if sa != sb2 || len(na) != len(nb) {
+		return false
+	}
+	eps := big.NewRat(1, 1000000000000000)
+	for i := range na {
+		d := new(big.Rat).Sub(na[i], nb[i])
+		d.Abs(d)
+		m := new(big.Rat).Abs(na[i])
+		if m2 := new(big.Rat).Abs(nb[i]); m2.Cmp(m) > 0 {
+			m = m2
+		}
+		if d.Sign() != 0 && (na[i].IsInt() && nb[i].IsInt() || d.Cmp(new(big.Rat).Mul(m, eps)) > 0) {
+			return false
+		}
+	}
+	return true
+}
+
 // stripTags renders a tagged document with every number as a plain JSON number (json.Number).
 func judgeRepr(c *GenCtx, ops []Op) []Diff {
 	var out []Diff
@@ -589,7 +636,7 @@ func judgeRepr(c *GenCtx, ops []Op) []Diff {
 				first, firstOp = got, op
 				continue
 			}
-			if got != first {
+			if got != first && !approxSame(got, first) {
 				d := jf("repr", string(op.Expr), op.Data, got, first, "same values under a different Go representation give a different result (other document: "+firstOp.Data+")")
 				out = append(out, d)
 				break
